@@ -60,6 +60,7 @@ class Runner:
         self.known_hits = {}  # finding id -> count
         self.unreproduced = []
         self.unrepresentable_cex = []
+        self.spot_checked = 0
         self.exact_compare = False
         self.extra_violations = []
         self.inexact = []
@@ -105,7 +106,9 @@ class Runner:
                     continue
                 if replay:
                     envs = [l["env"] for l in res["leaves"] if l["kind"] in ("return", "raise") and not l.get("unrepresentable")]
-                    task = dict(spec=res["spec"], envs=envs, violations=res["violations"])
+                    spot = [l["env"] for l in res["leaves"] if l["kind"] in ("band", "intractable", "budget", "concretized") and not l.get("unrepresentable")]
+                    res["_spot_envs"] = spot
+                    task = dict(spec=res["spec"], envs=envs, violations=res["violations"], spot_envs=spot)
                     replay_pend.append((res, plain_pool.apply_async(jobs.run_replay, (task,))))
             if t_end and time.time() > t_end:
                 for i in pend:
@@ -144,6 +147,13 @@ class Runner:
                 diffs = jobs.exact_diffs(l["digest"], dg)
                 if diffs:
                     self.inexact.append(dict(spec=res["spec"], env=l["env"], diffs=diffs[:6]))
+        for env, hits in zip(res.get("_spot_envs", []), rep.get("spots", [])):
+            if hits is None:
+                continue
+            self.spot_checked += 1
+            for h in hits:
+                res["violations"].append(dict(name=h["name"], env=env, meta={"spot_check": True}, kind="spot", cell=env, reproduced=True,
+                                              text="[spot check of a cell the symbolic run could not finish] " + h["text"], sig=h["sig"], spec=res["spec"]))
         for v, c in zip(res["violations"], rep["confirms"]):
             v["reproduced"] = c["reproduced"]
             v["text"] = c["text"]
@@ -247,6 +257,7 @@ class Runner:
             undecided_obligations=sum(r["undecided"] for r in ok),
             solver_queries=q,
             solver_time_s=round(tsolve, 2),
+            unfinished_cells_spot_checked_on_plain_library=self.spot_checked,
             shadow_mismatches=len(self.mismatches),
             mismatch_samples=self.mismatches[:3],
             unreproduced_counterexamples=len(self.unreproduced),
